@@ -164,7 +164,7 @@ def check_case(case, seed_key, res, tier):
             res.count('pairs')
             # ---- the real symbolic derivative
             try:
-                with evmon.wall(60):
+                with evmon.wall(20 if tier == 'quick' else 60):
                     D = ev.derivative(o, target)
             except evmon.WallNominate:
                 res.count('inconclusive_wall')
@@ -190,7 +190,7 @@ def check_case(case, seed_key, res, tier):
             vals = {}
             for cfg, simplify, optimize in (('raw', False, False), ('default', True, True)):
                 try:
-                    with evmon.wall(60):
+                    with evmon.wall(20 if tier == 'quick' else 60):
                         vals[cfg] = numpy.asarray(evmon.evaluate(D, av, simplify=simplify, optimize=optimize))
                 except evmon.WallNominate:
                     res.count('inconclusive_wall')
